@@ -1,7 +1,7 @@
 SPECIFICATION Spec
 CONSTANTS
   Runs = {1}
-  Params <- Params_A
+  Params <- Params_C
   OrderKinds = {"order", "balance", "trade"}
 INVARIANTS TypeOK PrefixAlways CompleteInOrder FeedInOrder SentOK AppliedOK SummaryOK
 PROPERTIES Isolation Monotone 
